@@ -192,7 +192,7 @@ func (vc *FuncVC) specVars(st *State) map[string]SV {
 		vars[k] = SV{V: v, T: fr.localT[k]}
 	}
 	for k, v := range fr.localAddr {
-		if vc.constParam(fr.fn, k) {
+		if false && vc.constParam(fr.fn, k) {
 			continue // parameter spilled to a cell (captured by a closure) and never reassigned: the name denotes its value
 		}
 		vars[k] = v
@@ -900,6 +900,10 @@ func (vc *FuncVC) loopCut(st *State, li *loopInfo, prev *ssa.BasicBlock, phis []
 	back := prev != nil && li.header.Dominates(prev) && li.blocks[prev]
 	if st.dry != nil {
 		if back {
+			// ghost updates at the back edge write heaps too: they belong to the loop's write set
+			if ls != nil && len(ls.Ghost) > 0 {
+				vc.ghostAssign(st, st.specEnv(vc.pkg, vc.specVars(st)), ls.Ghost)
+			}
 			return false
 		}
 		if ls != nil && ls.FullCut {
@@ -929,7 +933,17 @@ func (vc *FuncVC) loopCut(st *State, li *loopInfo, prev *ssa.BasicBlock, phis []
 			vc.ghostAssign(st, env, ls.Ghost)
 			env = st.specEnv(vc.pkg, vc.specVars(st))
 		}
-		vc.checkClauses(st, env, ls.Invariants, kind+".inv-preserved")
+		if vc.con.ChainEnsures {
+			// sequential asserts: each invariant is re-established assuming the ones before it
+			pcLen := len(st.pc)
+			for _, c := range ls.Invariants {
+				vc.checkClauses(st, env, []*Clause{c}, kind+".inv-preserved")
+				vc.assumeClauses(st, env, []*Clause{c}, kind+".inv-preserved")
+			}
+			st.pc = st.pc[:pcLen]
+		} else {
+			vc.checkClauses(st, env, ls.Invariants, kind+".inv-preserved")
+		}
 		fg := vc.frameGoals(st, sortedKeys(li.writes))
 		for _, h := range sortedKeys(fg) {
 			st.oblige(kind+".frame["+h+"]", fg[h], "loop frame of heap "+h)
